@@ -30,6 +30,9 @@ type Scenario struct {
 	// Filter restricts choice points to the given kinds.
 	Filter   func(kind uint8) bool
 	MaxSteps int
+	// HorizonViolates: the property promises termination, so an execution that exceeds ten times the
+	// step horizon is a violation instead of a harness error
+	HorizonViolates bool
 	// POR enables shared-location partial-order reduction (the scenario registers its memory
 	// with vsched.RegisterRegion in Setup); Explore then iterates the shared set to a fixpoint.
 	POR bool
@@ -142,7 +145,20 @@ func (e *explorer) judge(x *vsched.Exec) {
 		e.stop = true
 		return
 	}
-	if x.Horizon {
+	nonterm := false
+	if x.Horizon && e.sc.HorizonViolates {
+		// the property promises termination: an execution that is still running after ten times the
+		// horizon (which complete executions of the unchanged code stay far below) does not terminate
+		save := e.sc.MaxSteps
+		if save == 0 {
+			save = 20000
+		}
+		e.sc.MaxSteps = save * 10
+		y := e.replay(x.Choices)
+		e.sc.MaxSteps = save
+		nonterm = y.Horizon
+	}
+	if x.Horizon && !nonterm {
 		e.res.HarnessErr = fmt.Sprintf("step horizon exceeded, choices=%v", x.Choices)
 		e.stop = true
 		return
@@ -153,7 +169,9 @@ func (e *explorer) judge(x *vsched.Exec) {
 		return
 	}
 	var outcome, viol string
-	if x.Deadlock {
+	if nonterm {
+		outcome, viol = "NONTERMINATION", "a thread does not terminate: still running after 10x the step horizon"
+	} else if x.Deadlock {
 		e.res.Deadlocks++
 		outcome, viol = "DEADLOCK", "deadlock: no enabled thread while some are unfinished"
 	} else if x.Livelock {
@@ -201,6 +219,9 @@ func (e *explorer) judge(x *vsched.Exec) {
 }
 
 func (e *explorer) checkExec(x *vsched.Exec) (string, string) {
+	if x.Horizon && e.sc.HorizonViolates {
+		return "NONTERMINATION", "a thread does not terminate: still running after 10x the step horizon"
+	}
 	if x.Deadlock {
 		return "DEADLOCK", "deadlock: no enabled thread while some are unfinished"
 	}
